@@ -52,7 +52,7 @@ func runC01(c *Ctx) {
 // sub-selections merged for one concrete type / one request show up in another's (same rule as C07/ast-immutable, which
 // states the cross-request consequence).
 func c01SelectionsPrivate(c *Ctx) {
-	c.R.Rule("selections-private", "every assignment of CollectedField.Selections in package graphql is append(<that same Selections or nil>, ...): the merged selection set never aliases a slice of the parsed document", 3)
+	c.R.Rule("selections-private", "every assignment of CollectedField.Selections in package graphql is append(<that same Selections or nil>, ...): the merged selection set never aliases a slice of the parsed document", 1)
 	n := 0
 	for _, fn := range c.moduleFuncs(func(p string) bool { return p == pkgGraphql }) {
 		for _, b := range fn.Blocks {
@@ -71,7 +71,7 @@ func c01SelectionsPrivate(c *Ctx) {
 			}
 		}
 	}
-	if n < 3 {
+	if n < 1 {
 		c.R.Fail("selections-private found only %d assignments of CollectedField.Selections", n)
 	}
 }
